@@ -491,9 +491,12 @@ impl Scenario for Requests {
     }
 
     fn budget(&self, tier: Tier) -> u64 {
-        match tier {
-            Tier::Quick => 100_000,
-            Tier::Thorough => 6_000_000,
+        // egress sessions carry up to 12 requests and resolver answers: about five times dearer
+        match (tier, self.focus) {
+            (Tier::Quick, Focus::Egress) => 60_000,
+            (Tier::Thorough, Focus::Egress) => 2_500_000,
+            (Tier::Quick, _) => 100_000,
+            (Tier::Thorough, _) => 6_000_000,
         }
     }
 
